@@ -1,6 +1,7 @@
 /- line-protocol handlers for the STFT framing model and the segment walk -/
 import PdsVerif.DriverLoop
 import PdsVerif.Model.Stft
+import PdsVerif.Model.StftRaw
 import PdsVerif.Model.Walk
 namespace PdsVerif.Model.StftDrv
 open PdsVerif PdsVerif.Model
@@ -13,35 +14,40 @@ def parseBool (s : String) : Option Bool :=
 
 /-- ops: `c<n>` chunk of the next n samples, `z` finalize, `F<n>` compute_full on n samples,
 `B<n>:<k>` frame_by_frame_calculation on n samples with chunk_size k.  Samples are named by their
-index in the current utterance. -/
-def runOps (c : Stft.Cfg) : Stft.St Nat → Nat → List String → Option (List String)
+index in the current utterance.  The *physical-buffer* model is executed (junk cells = 999983).
+Each answer is `<frames>/<started after the call>`. -/
+def showOut (o : Stft.Out Nat) (st : Bool) : String :=
+  (match o with | .frames f => showFrames f | .valueError => "E") ++ (if st then "/1" else "/0")
+
+def runOps (c : Stft.Cfg) : StftRaw.Raw Nat → Nat → List String → Option (List String)
   | _, _, [] => some []
   | s, off, op :: rest => do
     let body := (op.drop 1).toString
     match op.front with
     | 'c' =>
       let n ← body.toNat?
-      let r := Stft.chunk c s ((List.range n).map (· + off))
+      let r := StftRaw.step c s (.chunk ((List.range n).map (· + off)))
       let tl ← runOps c r.1 (off + n) rest
-      some (showFrames r.2 :: tl)
+      some (showOut r.2 r.1.started :: tl)
     | 'z' =>
       if body ≠ "" then none else
-      let r := Stft.finalize c s
+      let r := StftRaw.step c s .finalize
       let tl ← runOps c r.1 0 rest
-      some (showFrames r.2 :: tl)
+      some (showOut r.2 r.1.started :: tl)
     | 'F' =>
       let n ← body.toNat?
-      let r := Stft.step c s (.full (List.range n))
+      let r := StftRaw.step c s (.full (List.range n))
       let tl ← runOps c r.1 off rest
-      some ((match r.2 with | .frames f => showFrames f | .valueError => "E") :: tl)
+      some (showOut r.2 r.1.started :: tl)
     | 'B' =>
       match body.splitOn ":" with
       | [a, b] =>
         let n ← a.toNat?
         let k ← b.toNat?
-        let r := Stft.step c s (.fbf (List.range n) k)
+        if k = 0 then none else
+        let r := StftRaw.step c s (.fbf (List.range n) k)
         let tl ← runOps c r.1 (if s.started then off else 0) rest
-        some ((match r.2 with | .frames f => showFrames f | .valueError => "E") :: tl)
+        some (showOut r.2 r.1.started :: tl)
       | _ => none
     | _ => none
 
@@ -50,7 +56,7 @@ def handleStft (args : List String) : Option String := do
   | l :: s :: ce :: ka :: ops =>
     let c : Stft.Cfg := { L := ← l.toNat?, S := ← s.toNat?, centered := ← parseBool ce, kaldi := ← parseBool ka }
     if c.S = 0 ∨ c.S > c.L then none else
-    let outs ← runOps c Stft.init 0 ops
+    let outs ← runOps c (StftRaw.fresh (List.replicate c.L 999983)) 0 ops
     some (";".intercalate outs)
   | _ => none
 
